@@ -1485,6 +1485,12 @@ func c18Bucket(r *c18Run) []string {
 
 func c18Judge(t *testing.T, res *vResult, model *vModel, name string, script []string) {
 	r := c18RunScript(t, script)
+	if len(r.errs) > 0 && strings.Contains(strings.Join(r.errs, ";"), "did not become metadata leader") {
+		// an infrastructure time-out of the fixture (a single-node Raft election that takes more than 20 s on a saturated machine; seen once in
+		// a thorough background run next to a full sweep, DESIGN 9.3): the script is run once more before it counts as not executable
+		res.Dist("fixture-retry:leader-election-timeout")
+		r = c18RunScript(t, script)
+	}
 	for k, n := range r.stats {
 		if strings.HasPrefix(k, "op:") {
 			for i := 0; i < n; i++ {
